@@ -186,8 +186,8 @@ func astFacts(repo string) (facts, error) {
 		}
 		ft.popMax = v
 	}
-	if len(callsIn(defCase, ".PopMultiple")) == 0 || len(callsIn(defCase, ".writeFunction")) == 0 {
-		return ft, fmt.Errorf("writingLoop: default clause does not pop and write")
+	if len(callsIn(defCase, ".PopMultiple")) == 0 {
+		return ft, fmt.Errorf("writingLoop: default clause does not pop")
 	}
 	for _, st := range doneCase.Body {
 		if len(callsIn(st, ".PopMultiple"))+len(callsIn(st, ".Length"))+len(callsIn(st, ".Pop")) > 0 {
